@@ -80,6 +80,16 @@ type palsCase struct {
 	// BlockIndel != 0: one indel of |BlockIndel| = 2..5 consecutive letters (up to pals.MaxIGap; negative:
 	// the query copy lacks them, positive: it has extra ones) at BlockAt permille of the repeat, instead of
 	// as many of the substitutions
+	// SelfCopy: in a self comparison the query is another sequence value with the same letters
+	SelfCopy bool `json:"self_copy,omitempty"`
+	// Shared: between BuildIndex and Align a second aligner over the same sequences takes over the
+	// first one's index and settings (Share) and is then optimised for other settings (PriorMinHit /
+	// PriorMinID when set, else 60 / 0.9); the first aligner's results must not be affected
+	Shared bool `json:"shared,omitempty"`
+	// TubeAt >= 1: the aligner is created with an explicit tube offset of MaxError + TubeAt - 1, MaxError
+	// being what Optimise chooses for these settings (learned from a throw-away aligner); the smallest
+	// offset the filter accepts is MaxError itself. Soundness and error-free runs are asserted, recall is not.
+	TubeAt     int    `json:"tube_at,omitempty"`
 	BlockIndel int    `json:"block_indel,omitempty"`
 	BlockAt    int    `json:"block_at_permille,omitempty"`
 	SeedT      uint64 `json:"seed_t"`
@@ -354,13 +364,22 @@ func check(c palsCase) *vlib.Failure {
 	qs := ts
 	if !c.Self {
 		qs = linear.NewSeq("q", alphabet.BytesToLetters(b.query), alphabet.DNA)
+	} else if c.SelfCopy {
+		qs = linear.NewSeq("t", alphabet.BytesToLetters(append([]byte(nil), b.target...)), alphabet.DNA)
 	}
 	m, err := morass.New(filter.Hit{}, "pals", "", 1<<13, false)
 	if err != nil {
 		return vlib.Failf("setup", "%v", err)
 	}
 	mem := uintptr(8 << 20) // keeps Optimise at k <= 10 (an uncapped run picks k = 15: a 4 GiB table)
-	p := pals.New(ts, qs, c.Self, m, 0, &mem, nil)
+	tubeOffset := 0
+	if c.TubeAt > 0 {
+		probe := pals.New(ts, qs, c.Self, nil, 0, &mem, nil)
+		if err := probe.Optimise(c.MinHit, b.minID); err == nil {
+			tubeOffset = probe.FilterParams.MaxError + c.TubeAt - 1
+		}
+	}
+	p := pals.New(ts, qs, c.Self, m, tubeOffset, &mem, nil)
 	defer p.CleanUp()
 	desc := fmt.Sprintf("Tlen=%d Qlen=%d minHitLen=%d minId=%.2f repeat %d letters with %d differences at t[%d,%d) q[%d,%d) reverse=%v self=%v", len(b.target), len(b.query), c.MinHit, b.minID, b.tl, b.diffs, b.t0, b.t0+b.tl, b.q0, b.q0+b.ql, c.Reverse, c.Self)
 	if c.PriorMinHit > 0 {
@@ -392,6 +411,24 @@ func check(c palsCase) *vlib.Failure {
 			desc += " [after a refused Optimise(20, 0.5)]"
 		}
 	}
+	if tubeOffset > 0 {
+		desc += fmt.Sprintf(" [explicit tube offset %d, MaxError %d]", tubeOffset, p.FilterParams.MaxError)
+	}
+	if c.Shared {
+		m2, err := morass.New(filter.Hit{}, "pals2", "", 1<<13, false)
+		if err != nil {
+			return vlib.Failf("setup", "%v", err)
+		}
+		p2 := pals.New(ts, qs, c.Self, m2, 0, &mem, nil)
+		p2.Share(p)
+		oh, oi := 60, 0.9
+		if c.PriorMinHit > 0 {
+			oh, oi = c.PriorMinHit, float64(c.PriorMinID)/100
+		}
+		p2.Optimise(oh, oi)
+		p2.CleanUp()
+		desc += fmt.Sprintf(" [another aligner shared this one's index and was then optimised for %d / %.2f]", oh, oi)
+	}
 	strands := []bool{false, true}
 	found := false
 	for _, comp := range strands {
@@ -414,7 +451,7 @@ func check(c palsCase) *vlib.Failure {
 			}
 			return f
 		}
-		if comp == c.Reverse && c.NetDel == 0 && !c.LowID && c.AtThr == 0 {
+		if comp == c.Reverse && c.NetDel == 0 && !c.LowID && c.AtThr == 0 && c.TubeAt == 0 {
 			for _, h := range hits {
 				_ = h
 			}
@@ -577,6 +614,11 @@ func gen(t *rapid.T) palsCase {
 		c.BlockIndel = -n + 2*n*int(c.SeedM&1)
 		c.BlockAt = 505 + int(c.SeedM>>3)%90
 	}
+	c.SelfCopy = c.Self && rapid.Bool().Draw(t, "self-copy")
+	c.Shared = rapid.IntRange(0, 5).Draw(t, "shared") == 4
+	if rapid.IntRange(0, 7).Draw(t, "explicit-tube-offset") == 6 {
+		c.TubeAt = rapid.SampledFrom([]int{1, 1, 2, 9, 40}).Draw(t, "tube-at")
+	}
 	c.Refused = rapid.IntRange(0, 5).Draw(t, "refused-optimise") == 2
 	if rapid.IntRange(0, 5).Draw(t, "aligner-used-before") == 3 {
 		c.PriorMinHit = rapid.IntRange(100, 400).Draw(t, "prior-min-hit")
@@ -605,6 +647,15 @@ func classes(c palsCase) []string {
 	}
 	if c.BlockIndel != 0 {
 		l = append(l, "one-indel-of-2-to-5-letters")
+	}
+	if c.SelfCopy {
+		l = append(l, "self-comparison-with-an-equal-copy-as-query")
+	}
+	if c.Shared {
+		l = append(l, "index-shared-with-an-aligner-optimised-otherwise")
+	}
+	if c.TubeAt > 0 {
+		l = append(l, "explicit-tube-offset")
 	}
 	if c.Indels > 0 {
 		l = append(l, "indels")
